@@ -87,7 +87,8 @@ def classify(res):
         semantic = any(s in low for s in SEMANTIC)
         if 'resource limit' in low or 'rlimit' in low or 'timed out' in low:
             semantic = False
-        errs.append(dict(message=msg, lines=lines, semantic=semantic, rendered=d.get('rendered', '')))
+        errs.append(dict(message=msg, lines=lines, semantic=semantic, rendered=d.get('rendered', ''),
+                         limit=('resource limit' in low or 'rlimit' in low or 'timed out' in low)))
     j = res['json']
     if j is None:
         return 'undecided', errs or [dict(message='no json output: ' + res['stderr'][-2000:], lines=[], semantic=False)]
@@ -100,6 +101,10 @@ def classify(res):
         return 'ok', []
     if errs and all(e['semantic'] for e in errs):
         return 'fail', errs
+    # obligations refuted by the solver (a model was found) next to queries that merely ran out of resources: the refuted ones stand,
+    # the resource-limited ones add nothing (reported by the caller as part of the output, not as failures)
+    if any(e['semantic'] for e in errs) and all(e['semantic'] or e.get('limit') for e in errs):
+        return 'fail', [e for e in errs if e['semantic']]
     if not errs:
         return 'undecided', [dict(message='verus reported failure without diagnostics: ' + res['stderr'][-2000:], lines=[], semantic=False)]
     return 'undecided', errs
